@@ -686,6 +686,24 @@ type NumTypeEnclosure struct {
 	FloatVal float64  `json:"floatVal,omitempty"`
 }
 
+// AddInt64 returns a+b and whether the sum does not fit an int64.
+func AddInt64(a int64, b int64) (int64, bool) {
+	sum := a + b
+	return sum, (b > 0 && sum < a) || (b < 0 && sum > a)
+}
+
+// AddToIntSum adds v to an integer sum. A sum that does not fit an int64 becomes a float64,
+// as the sum does at the first float value; it must not wrap around.
+func (nte *NumTypeEnclosure) AddToIntSum(v int64) {
+	sum, overflow := AddInt64(nte.IntgrVal, v)
+	if overflow {
+		nte.FloatVal = float64(nte.IntgrVal) + float64(v)
+		nte.Ntype = SS_DT_FLOAT
+		return
+	}
+	nte.IntgrVal = sum
+}
+
 func (nte *NumTypeEnclosure) ToCValueEnclosure() (*CValueEnclosure, error) {
 	if nte == nil {
 		return nil, fmt.Errorf("ToCValueEnclosure: numTypeEnclosure is nil")
